@@ -295,6 +295,9 @@ func (w *c20World) stepThread(th *c20Thread) (spawnedRunning bool) {
 		th.calls = th.calls[1:]
 		if c.name == "finishsucc" {
 			newG = w.expectRelease()
+			if w.busy(w.W) {
+				w.st.Inc("finishsucc_with_worker_busy")
+			}
 		}
 		w.startCall(th, c.fn)
 		w.await(th, newG)
@@ -880,6 +883,7 @@ func (w *c20World) drainQuiet() {
 // ---------------------------------------------------------------- sequences
 
 type c20Seq struct {
+	mfirst bool
 	w      *c20World
 	out    *VStream
 	nOps   int
@@ -896,12 +900,14 @@ func (s *c20Seq) emit(a c20Action) {
 		switch {
 		case len(w.m.reloadReqs) > 0:
 			stage = "queued"
-		case w.busy(w.W) && w.m.reloadPending.Load() && !w.m.reloading.Load() && len(w.W.calls) > 0:
+		case w.busy(w.W) && len(w.W.calls) > 0 && w.W.park == nil:
 			stage = "worker:" + w.W.calls[0].name
 		case w.busy(w.W) && w.W.park != nil:
 			stage = "worker@" + w.W.park.kind
 		case w.m.reloading.Load():
 			stage = "handoff"
+		case w.busy(w.M) && w.m.reloadPending.Load():
+			stage = "handler"
 		case w.gBlocked() != nil:
 			stage = "retiring"
 		case w.gAt("end") != nil || w.gAt("get") != nil || w.gAt("set") != nil:
@@ -1040,7 +1046,12 @@ func (s *c20Seq) defaultNext(excludeM bool) (string, bool) {
 	for _, x := range in {
 		has[x] = true
 	}
-	for _, n := range []string{"w", "wstart", "wake", "m", "closeg", "gend", "gread", "gwrite", "closemgr"} {
+	order := []string{"w", "wstart", "wake", "m", "closeg", "gend", "gread", "gwrite", "closemgr"}
+	if s.mfirst {
+		// the main loop's handler overtakes the worker's tail whenever it can
+		order = []string{"wake", "m", "w", "wstart", "closeg", "gend", "gread", "gwrite", "closemgr"}
+	}
+	for _, n := range order {
 		if has[n] && !(n == "m" && excludeM) {
 			return n, true
 		}
@@ -1247,9 +1258,14 @@ func TestVerifC20(t *testing.T) {
 						continue
 					}
 					kind := kinds[cnt%2]
+					mf := (cnt/stride)%3 == 0
 					total += c20RunSeq(t, out, dir, regions, r.Fork(), st, func(s *c20Seq) {
+						s.mfirst = mf
 						c20Systematic(s, wp, hsel, inj, kind, gap)
 					})
+					if mf {
+						st.Inc("systematic_mfirst_sequences")
+					}
 					st.Inc("systematic_sequences")
 				}
 			}
